@@ -379,3 +379,54 @@ fn fix_mnone(it: &mut Item) {
         _ => {}
     }
 }
+
+/// Give one code label the name of a procedure (the two live in different tables: CALL uses procedure names,
+/// jumps use label names). Returns false when the program has no such pair or a macro body mentions the label.
+pub fn collide_names(p: &mut Program, rng: &mut Rng) -> bool {
+    fn labels_of(items: &[Item], out: &mut Vec<String>) {
+        for it in items {
+            match it {
+                Item::Label(l) if l != "start" => out.push(l.clone()),
+                Item::Proc(_, b) => labels_of(b, out),
+                _ => {}
+            }
+        }
+    }
+    fn rename(items: &mut [Item], from: &str, to: &str) {
+        for it in items.iter_mut() {
+            match it {
+                Item::Label(l) if l == from => *l = to.to_string(),
+                Item::Ins(Ins::J(_, l)) if l == from => *l = to.to_string(),
+                Item::MacroUse(_, _, exp) => {
+                    for e in exp.iter_mut() {
+                        if let Ins::J(_, l) = e {
+                            if l == from {
+                                *l = to.to_string();
+                            }
+                        }
+                    }
+                }
+                Item::Proc(_, b) => rename(b, from, to),
+                _ => {}
+            }
+        }
+    }
+    let procs: Vec<String> = p.items.iter().filter_map(|i| if let Item::Proc(n, _) = i { Some(n.clone()) } else { None }).collect();
+    let mut labels = Vec::new();
+    labels_of(&p.items, &mut labels);
+    if procs.is_empty() || labels.is_empty() {
+        return false;
+    }
+    let l = labels[rng.below(labels.len())].clone();
+    let pn = procs[rng.below(procs.len())].clone();
+    let in_macro = p.items.iter().any(|i| match i {
+        Item::MacroDef(_, _, body) => body.contains(l.as_str()),
+        Item::MacroUse(_, args, _) => args.iter().any(|a| a == &l),
+        _ => false,
+    });
+    if in_macro {
+        return false;
+    }
+    rename(&mut p.items, &l, &pn);
+    true
+}
